@@ -17,6 +17,7 @@ package helper
 func Filter[T any](c <-chan T, p func(T) bool) <-chan T {
 	fc := make(chan T)
 
+	VerifStage("Filter", 0, []any{c}, []any{fc})
 	go func() {
 		for n := range c {
 			if p(n) {
